@@ -48,3 +48,53 @@ def check_function(ctx, fn, rule='R-PARALLEL'):
                       'look-ahead iterator `%s` (initialised one past its sibling) is dereferenced in this loop but never advanced, while %s advance: it stays on the second element for every later iteration' % (
                           pretty_key(key), sorted(pretty_key(a) for a in adv)))
     return n
+
+
+def check_steps(ctx, fn, rule='R-PARALLEL'):
+    """Trailing cursors of parallel arrays move together: in a block where one trailing cursor jumps to
+    its look-ahead partner (`sub0 = sub1`), every trailing cursor declared in the same scope jumps to its
+    own partner (`offset0 = offset1`), not by a fixed step."""
+    n = 0
+    pairs = {}   # scope id -> list of (trail VarDecl, lead VarDecl)
+    for v in fn.walk():
+        if v.k == 'VarDecl' and '*' in (v.t or '') and v.child('init') is not None:
+            i = _strip_casts(v.child('init'))
+            if i.k == 'BinaryOperator' and i.op == '+' and i.child('rhs').cv == 1:
+                l = _strip_casts(i.child('lhs'))
+                if l.k == 'DeclRefExpr' and l.dk == 'local':
+                    scope = v.parent.parent if v.parent is not None else None
+                    tv = next((t for t in fn.walk() if t.k == 'VarDecl' and 'v%d:%s' % (t.d, t.n) == lvalue_key(l)), None)
+                    if scope is not None and tv is not None:
+                        pairs.setdefault(id(scope), []).append((tv, v))
+    for ps in pairs.values():
+        if len(ps) < 2:
+            continue
+        keys = {lvalue_key_of(t): lvalue_key_of(l) for t, l in ps}
+        for blk in fn.walk():
+            if blk.k != 'CompoundStmt':
+                continue
+            jumps = {}
+            steps = {}
+            for s in blk.c:
+                if s is None:
+                    continue
+                if is_assign(s) and s.op == '=':
+                    lk, rk = lvalue_key(s.child('lhs')), lvalue_key(_strip_casts(s.child('rhs')))
+                    if lk in keys:
+                        jumps[lk] = rk
+                if s.k == 'UnaryOperator' and s.op in ('++', 'post++') and lvalue_key(s.child('sub')) in keys:
+                    steps[lvalue_key(s.child('sub'))] = s
+            if not any(jumps.get(k) == v for k, v in keys.items()):
+                continue
+            n += 1
+            bad = []
+            for k, v in keys.items():
+                if jumps.get(k) != v:
+                    bad.append('`%s` %s' % (pretty_key(k), 'is stepped by one' if k in steps else ('is assigned from `%s`' % pretty_key(jumps[k]) if k in jumps else 'is left behind')))
+            ctx.check(not bad, rule, '%s/cursors-jump-together@%s' % (fn.qn.replace('gdstk::', ''), blk.loc()), blk.loc(), 'all %d trailing cursors jump to their look-ahead partners in the same block' % len(keys),
+                      'in the block where a trailing cursor jumps to its look-ahead partner, %s: after a section is skipped the cursors no longer address the same section' % ', '.join(bad))
+    return n
+
+
+def lvalue_key_of(v):
+    return 'v%d:%s' % (v.d, v.n)
